@@ -236,21 +236,28 @@ def txStateRequestStart (uid : Nat) (c : Conn) : R :=
   let c := { c with inState := .line }
   (c.modIn (fun t => { t with reqProgress := 1 }), .ok)
 
+/-- the table update of htp_process_request_header_generic / htp_process_response_header_generic, as a pure function of
+    (headers, repetition counter, new header): first case-insensitive match wins; the second occurrence raises FIELD_REPEATED;
+    Content-Length repetitions are not concatenated; at most MAX_HEADERS_REPETITIONS further merges per transaction. -/
+def addHeader (hs : List Header) (reps : Nat) (h : Header) : List Header × Nat :=
+  match hs.findIdx? (fun e => Bstr.cmpMemNocase e.name h.name == 0) with
+  | none => (hs ++ [h], reps)
+  | some i =>
+    let e := hs.getD i default
+    if hasFlag e.flags FIELD_REPEATED && reps ≥ MAX_HEADERS_REPETITIONS then (hs, reps) else
+    let reps := if hasFlag e.flags FIELD_REPEATED then reps + 1 else reps
+    let e := { e with flags := setFlag e.flags FIELD_REPEATED }
+    let e := if Bstr.cmpMemNocase h.name (b!"Content-Length") == 0 then e
+             else { e with value := e.value ++ [0x2c, 0x20] ++ h.value }
+    (hs.set i e, reps)
+
 /-- add or merge one parsed request header (htp_process_request_header_generic) -/
 def processRequestHeader (data : Bytes) (c : Conn) : R :=
   let (h, txf) := parseRequestHeader data
   let c := c.modIn (fun t => { t with flags := t.flags ||| txf })
-  let t := c.inTx
-  match t.reqHeaders.findIdx? (fun e => Bstr.cmpMemNocase e.name h.name == 0) with
-  | none => (c.modIn (fun t => { t with reqHeaders := t.reqHeaders ++ [h] }), .ok)
-  | some i =>
-    let e := t.reqHeaders.getD i default
-    if hasFlag e.flags FIELD_REPEATED && t.reqHeaderRepetitions ≥ MAX_HEADERS_REPETITIONS then (c, .ok) else
-    let reps := if hasFlag e.flags FIELD_REPEATED then t.reqHeaderRepetitions + 1 else t.reqHeaderRepetitions
-    let e := { e with flags := setFlag e.flags FIELD_REPEATED }
-    let e := if Bstr.cmpMemNocase h.name (b!"Content-Length") == 0 then e
-             else { e with value := e.value ++ [0x2c, 0x20] ++ h.value }
-    (c.modIn (fun t => { t with reqHeaders := t.reqHeaders.set i e, reqHeaderRepetitions := reps }), .ok)
+  (c.modIn (fun t =>
+    let (hs, reps) := addHeader t.reqHeaders t.reqHeaderRepetitions h
+    { t with reqHeaders := hs, reqHeaderRepetitions := reps }), .ok)
 
 def processResponseHeader (data : Bytes) (c : Conn) : R :=
   let (h, txf) := parseResponseHeader data
@@ -259,17 +266,9 @@ def processResponseHeader (data : Bytes) (c : Conn) : R :=
     if hasFlag h.flags FIELD_UNPARSEABLE then
       (if hasFlag t.flags FIELD_UNPARSEABLE then t else { t with flags := t.flags ||| FIELD_UNPARSEABLE ||| FIELD_INVALID })
     else { t with flags := t.flags ||| txf })
-  let t := c.outTx
-  match t.resHeaders.findIdx? (fun e => Bstr.cmpMemNocase e.name h.name == 0) with
-  | none => (c.modOut (fun t => { t with resHeaders := t.resHeaders ++ [h] }), .ok)
-  | some i =>
-    let e := t.resHeaders.getD i default
-    if hasFlag e.flags FIELD_REPEATED && t.resHeaderRepetitions ≥ MAX_HEADERS_REPETITIONS then (c, .ok) else
-    let reps := if hasFlag e.flags FIELD_REPEATED then t.resHeaderRepetitions + 1 else t.resHeaderRepetitions
-    let e := { e with flags := setFlag e.flags FIELD_REPEATED }
-    let e := if Bstr.cmpMemNocase h.name (b!"Content-Length") == 0 then e
-             else { e with value := e.value ++ [0x2c, 0x20] ++ h.value }
-    (c.modOut (fun t => { t with resHeaders := t.resHeaders.set i e, resHeaderRepetitions := reps }), .ok)
+  (c.modOut (fun t =>
+    let (hs, reps) := addHeader t.resHeaders t.resHeaderRepetitions h
+    { t with resHeaders := hs, resHeaderRepetitions := reps }), .ok)
 
 /-- htp_table_get_c on a header list: first entry whose name (NULs skipped) equals `key` case-insensitively -/
 def getHeaderC (hs : List Header) (key : Bytes) : Option Header :=
